@@ -14,13 +14,66 @@ ID = "C11"
 PROPS_FILE = "Props/C11.v"
 GEN_DEPS = ["GenConsts"]
 ALLOWED_AXIOMS: List[str] = []
-THEOREMS = {}
+THEOREMS = {
+    "C11_examples": "example",
+    "C11_dec_roundtrip": "full",
+    "C11_dec_all_digits": "full",
+    "C11_dec_no_leading_zero": "full",
+    "C11_dec_no_leading_zero_ex": "example",
+    "C11_dec_fuel_sufficient": "full",
+    "C11_dec_fuel_sufficient_ex": "example",
+    "C11_dec_length": "full",
+    "C11_dec_length_ex": "example",
+    "C11_digits_fixed_length": "full",
+    "C11_digits_fixed_value": "full",
+    "C11_rstrip0_value": "full",
+    "C11_rstrip0_suffix": "full",
+    "C11_rstrip0_no_trailing_zero": "full",
+    "C11_int_exact": "full",
+    "C11_int_exact_ex": "example",
+    "C11_fraction_exact": "full",
+    "C11_fraction_exact_ex": "example",
+    "C11_fraction_value_Q": "full",
+    "C11_fraction_value_Q_ex": "example",
+    "C11_plain_decimal": "full",
+    "C11_plain_decimal_ex": "example",
+    "C11_no_leading_zero": "full",
+    "C11_no_leading_zero_ex": "example",
+    "C11_decimal_path": "full",
+    "C11_decimal_path_ex": "example",
+    "C11_paths": "full",
+    "C11_paths_ex": "example",
+    "C11_correctly_rounded": "full",
+    "C11_correctly_rounded_ex": "example",
+    "C11_correctly_rounded_Q": "full",
+    "C11_correctly_rounded_Q_ex": "example",
+    "C11_carry_consistent": "full",
+    "C11_carry_consistent_ex": "example",
+    "C11_rne_div_spec": "full",
+    "C11_rne_div_unique": "full",
+    "C11_rne_div_ex": "example",
+    "C11_three_sig_figs": "full",
+    "C11_three_sig_figs_ex": "example",
+    "C11_int_digits": "full",
+    "C11_int_digits_ex": "example",
+    "C11_sigfig_below_tenth_refuted": "refuted",
+    "C11_sigfig_below_tenth_examples": "example",
+    "C11_readback": "full",
+    "C11_readback_ex": "example",
+    "C11_readback_Q": "full",
+    "C11_readback_Q_ex": "example",
+    "C11_readback_number": "full",
+    "C11_readback_number_ex": "example",
+}
 TRUSTED = [
     "Coq 8.16.1 kernel (coqc, vm_compute for correspondence only)",
     "model of CPython: format(x,'.nf') and round(x) are correctly rounded (ties to even) on the exact binary value; "
     "math.modf exact; float(Fraction) correctly rounded (Base/Num.v b64)",
     "translator: GenConsts (significant_figures default, allowed_denominators default) read from the live functions",
     "correspondence harness: rgv/props/C11.py generators, coqio serialiser, in-Coq string equality",
+    "reader model Model/NumParse.v: tied to number_parser.number by suite numparse on the texts the formatter produces "
+    "(plus spacing / leading-zero / zero-denominator variants); float(text) is taken to be the correctly rounded "
+    "binary64 value of the exact decimal (checked there with b64); other int()/float() syntaxes are outside the model",
 ]
 ASSUMPTIONS = ["numbers are non-negative and below 1e15 (recipes cannot express negative numbers)"]
 RULE = ("ints, Fractions (allowed and other denominators, times scale factors) and floats placed on and within a few "
@@ -104,7 +157,34 @@ def make_case(x: Any) -> Case:
     )
 
 
+def parse_impl(text: str) -> Any:
+    """number_parser.number on [text]: the number, "ZeroDivisionError" or "ValueError"."""
+    from recipe_grid.number_parser import number as parse_number
+    try:
+        return parse_number(text)
+    except ZeroDivisionError:
+        return "ZeroDivisionError"
+    except ValueError:
+        return "ValueError"
+
+
+def make_parse_case(text: str, tag: str) -> Case:
+    """Reader model (Model/NumParse.v) against number_parser.number on a text inside the modelled syntax."""
+    r = parse_impl(text)
+    if r == "ZeroDivisionError":
+        out, shown, viol = coqio.opt(None, "num"), r, None
+    elif r == "ValueError":
+        out, shown = coqio.opt(None, "num"), r
+        viol = f"{text!r} (a text of the kind format_number produces) is rejected by number_parser.number"
+    else:
+        out, shown, viol = coqio.opt(coqio.num(r)), repr(r), None
+    return Case(input={"text": text}, coq_in=coqio.string(text), coq_out=out, impl=shown, violation=viol,
+                nontrivial=not text.isdigit() or len(text) > 3, tags=["parse-" + tag])
+
+
 def replay(inp: Any) -> Case:
+    if "text" in inp:
+        return make_parse_case(inp["text"], "replay")
     return make_case(coqio.num_unjson(inp))
 
 
@@ -175,8 +255,13 @@ def suites(tier: str, seed: int) -> List[Suite]:
         imports=["From RG Require Import Model.NumFmt."],
         in_ty="num", out_ty="str", check="check_format", show="format_number",
     )
+    sp = Suite(
+        name="numparse",
+        imports=["From RG Require Import Model.NumParse."],
+        in_ty="str", out_ty="(option num)", check="check_parse", show="parse_number",
+    )
     if tier == "replay":
-        return [su]
+        return [su, sp]
     rng = random.Random(seed * 7919 + 11)
     n = 3000 if tier == "quick" else 60000
     seen = set()
@@ -186,4 +271,21 @@ def suites(tier: str, seed: int) -> List[Suite]:
             continue
         seen.add(c.key())
         su.cases.append(c)
-    return [su]
+    # reader: every text the formatter produced, plus spacing / leading-zero / zero-denominator variants
+    texts = {}
+    for c in su.cases:
+        texts.setdefault(c.impl, "shown")
+    for c in [c for c in su.cases if "/" in c.impl][: n // 10]:
+        if True:
+            num_, den = c.impl.split("/")
+            blank = rng.choice((" ", "\t", "  ", " \t "))
+            texts.setdefault(num_.replace(" ", blank) + rng.choice(("", " ", "\t")) + "/" + rng.choice(("", " ", "\t ")) + den,
+                             "spaced")
+            texts.setdefault(num_ + "/0", "zero-den")
+            texts.setdefault("0" + num_ + "/0" + den, "leading-zero")
+    for tx in ("3 /4", "12 /3", "12\t/ 3", "4/2", "0 1/2", "1 4/2", "007", "0012", "00.50", "0.000", "123456789012345678901234567890",
+               "0.1", "0.30000000000000004", "9007199254740993.5", "1/0", "2 1/0", "0/5", "0 0/5"):
+        texts.setdefault(tx, "hand")
+    for tx, tag in texts.items():
+        sp.cases.append(make_parse_case(tx, tag))
+    return [su, sp]
